@@ -1025,6 +1025,13 @@ class Interp:
             if recv[0] == "None":
                 return m == "is_none_or"
             return self.call_closure(args[0], [recv[1]])
+        if m == "map" and isinstance(recv, tuple) and recv[0] in ("Some", "None", "Ok", "Err") and e["a"] and e["a"][0].get("k") == "path" \
+                and e["a"][0]["p"].split("::")[-1] in ("from", "into", "clone", "to_owned"):
+            return recv          # conversion functions are value-preserving in the model
+        if m == "or_else" and isinstance(recv, tuple) and recv[0] in ("Some", "None") and args and isinstance(args[0], dict):
+            return recv if recv[0] == "Some" else self.call_closure(args[0], [])
+        if m == "or" and isinstance(recv, tuple) and recv[0] in ("Some", "None") and args:
+            return recv if recv[0] == "Some" else args[0]
         if m in ("map", "and_then") and isinstance(recv, tuple) and recv[0] in ("Some", "None") and args and isinstance(args[0], dict):
             if recv[0] == "None":
                 return recv
